@@ -50,6 +50,7 @@ type script struct {
 
 // rig = one real upstream (httptest.Server) + one HTTPProxy driven through ServeHTTP.
 type rig struct {
+	mutate func(*http.Request) // applied to the parsed request before it is served (protocol version and the like)
 	up      *httptest.Server
 	upAddr  string
 	hits    int64
@@ -139,6 +140,9 @@ func (r *rig) do(raw []byte, remoteAddr string, cs *tls.ConnectionState) (*httpt
 	}
 	req.RemoteAddr = remoteAddr
 	req.TLS = cs
+	if r.mutate != nil {
+		r.mutate(req)
+	}
 	r.mu.Lock()
 	r.last = nil
 	r.mu.Unlock()
